@@ -247,7 +247,7 @@ def _json5_str(s, rng):
         elif ch == "\r":
             out.append("\\r")
         elif ch == "\t":
-            out.append("\\t" if rng.random() < 0.5 else "\t")
+            out.append("\\t")
         elif ch in "  ":
             out.append("\\u%04x" % ord(ch))
         elif ord(ch) < 0x20:
@@ -269,11 +269,14 @@ def to_json5(data, rng, depth=0):
         parts = []
         for k, v in data.items():
             key = k if (_is_ident(k) and rng.random() < 0.6) else _json5_str(k, rng)
-            comment = "  // c" if rng.random() < 0.1 else ""
-            parts.append(pad + key + ": " + to_json5(v, rng, depth + 1) + "," + comment)
-        if rng.random() < 0.5:
-            parts[-1] = parts[-1].replace(",  // c", "").rstrip(",") if parts[-1].endswith(",") else parts[-1]
-        return "{\n" + "\n".join(parts) + "\n" + "  " * depth + "}"
+            parts.append(pad + key + ": " + to_json5(v, rng, depth + 1))
+        lines = []
+        for i, part in enumerate(parts):
+            last = i == len(parts) - 1
+            if rng.random() < 0.08:
+                lines.append(pad + "// a comment")
+            lines.append(part + ("," if (not last or rng.random() < 0.5) else ""))
+        return "{\n" + "\n".join(lines) + "\n" + "  " * depth + "}"
     if isinstance(data, list):
         inner = ", ".join(to_json5(v, rng, depth + 1) for v in data)
         if data and rng.random() < 0.3:
